@@ -218,11 +218,22 @@ def check_locks(chk, tu):
                             before = []
                         else:
                             before.append(t)
-                    drained = any(t.get('kind') == 'WhileStmt'
-                                  and any(x.get('kind') == 'MemberExpr' and x.get('name') == 'task' for x in walk(kids(t)[-2]))
-                                  and any(x.get('kind') == 'CallExpr' and astdb.callee_name(x) == 'pthread_cond_wait'
-                                          and mutex_text(astdb.call_args(x)[0]).endswith('produce') for x in walk(kids(t)[-1]))
-                                  for t in before)
+                    def drain_loop(t):
+                        return (t.get('kind') == 'WhileStmt'
+                                and any(x.get('kind') == 'MemberExpr' and x.get('name') == 'task' for x in walk(kids(t)[-2]))
+                                and any(x.get('kind') == 'CallExpr' and astdb.callee_name(x) == 'pthread_cond_wait'
+                                        and mutex_text(astdb.call_args(x)[0]).endswith('produce') for x in walk(kids(t)[-1])))
+
+                    def drains(t):
+                        # the loop itself, or a call of a helper of this unit whose body is that loop (and does not unlock)
+                        if drain_loop(t):
+                            return True
+                        if t.get('kind') == 'CallExpr' and astdb.callee_name(t) in tu.functions:
+                            hb = astdb.fn_body(tu.functions[astdb.callee_name(t)])
+                            return hb is not None and any(drain_loop(x) for x in walk(hb)) and not any(
+                                x.get('kind') == 'CallExpr' and astdb.callee_name(x) == 'pthread_mutex_unlock' for x in walk(hb))
+                        return False
+                    drained = any(drains(t) for t in before)
                     worker_prefers_task = False
                     if l.get('name') == 'done':
                         wbody = astdb.fn_body(tu.functions[WORKER])
